@@ -661,12 +661,16 @@ def compare(ctx, rid, paths, table, what, fields=ALL_FIELDS, rowsel=None):
 
 
 def _contradictory(r):
+    """Two different outcomes of one tested value on a single-visit path.  Only complementary outcomes count: a payload is
+    written like its carrier (`x=Some` and `x=Left` are a match on an Option and then on its content)."""
+    comp = {('Some', 'None'), ('Ok', 'Err'), ('T', 'F'), ('0', '!0')}
     seen = {}
     for c in r.get('conds', []):
         t, _, lab = c.rpartition('=')
-        if t in seen and seen[t] != lab and '|' not in lab and '|' not in seen[t] and not lab.startswith('!') and not seen[t].startswith('!'):
-            return True
-        seen.setdefault(t, lab)
+        for prev in seen.get(t, ()):
+            if (prev, lab) in comp or (lab, prev) in comp or prev == '!' + lab or lab == '!' + prev:
+                return True
+        seen.setdefault(t, []).append(lab)
     return False
 
 
